@@ -111,6 +111,7 @@ PoolHyg == <<
     RT("\\\\$",      << <<Lbs, Eol>> >>),
     RT("[\"\\\\]",    One(Cls({"\"", "\\"}))),
     RT("\\\\|\"",     << <<Lbs>>, <<Lq>> >>),
+    RT("%\\\"",       << <<Lit("%"), Lq>> >>),             \* a percent sign: the finished text is printed, not formatted
     \* inline flag groups: outside C01's quantifier (the harness does not compare languages
     \* for programs that contain them), but C02 demands that none survives in the output
     RT("(?i)^a.",    << <<Bol, La, Dot>> >>),
@@ -140,6 +141,12 @@ Words == IF PoolSel = "cmd"
 
 \* prefix and suffix lines; in the hygiene pool their text needs every clean-up pass, also when the
 \* file has no other line (the passes run on prefixes + body + suffixes, whatever the body is)
+\* verbatim lines of a cmdline block (leading quote: the rest is pasted as it is, markers included)
+VerbWords == IF PoolSel = "cmd"
+             THEN << [txt |-> "'a@", vrt |-> RT("a@", << <<La, Lit("@")>> >>)],
+                     [txt |-> "'x.", vrt |-> RT("x.", << <<Lx, Dot>> >>)] >>
+             ELSE <<>>
+
 PfxPool == IF PoolSel = "hyg" THEN << RT("\"a", << <<Lit("\""), La>> >>), RT("\\\\", One(Lit("\\"))) >>
            ELSE << RT("a", One(La)), RT("[ab]", One(Cls({"a", "b"}))) >>
 SfxPool == IF PoolSel = "hyg" THEN << RT("\\s", One(Cls({" "}))), RT("a*", One(Q("star", La))) >>
@@ -152,6 +159,9 @@ VocEntries == [i \in 1..Len(Pool) |-> [k |-> "entry", rt |-> Pool[i], txt |-> Po
 VocWords   == [j \in 1..Len(Words) |->
                  [k |-> "entry", rt |-> RT(Words[j], Word(Chars(Words[j]))), txt |-> Words[j], w |-> TRUE,
                   i |-> Len(Pool) + j]]
+VocVerb    == [j \in 1..Len(VerbWords) |->
+                 [k |-> "entry", rt |-> RT(VerbWords[j].txt, Word(Chars(VerbWords[j].txt))), vrt |-> VerbWords[j].vrt,
+                  txt |-> VerbWords[j].txt, w |-> TRUE, i |-> Len(Pool) + Len(Words) + j]]
 VocMarks   == <<
     [k |-> "start", p |-> "assemble", a |-> "",     txt |-> "##!> assemble"],
     [k |-> "start", p |-> "cmdline",  a |-> "unix", txt |-> "##!> cmdline unix"],
@@ -171,13 +181,14 @@ VocGlobal  ==
        [k |-> "comment", txt |-> "##! a comment"],
        [k |-> "blank", txt |-> ""] >>
 
-Voc == VocEntries \o VocWords \o VocMarks \o VocGlobal
+Voc == VocEntries \o VocWords \o VocVerb \o VocMarks \o VocGlobal
 
 \* the denotation of every entry line under every flag set, computed once
 FlagSets == SUBSET {"i", "s"}
 LeafTable == [fl \in FlagSets |->
-               [i \in 1..(Len(Pool) + Len(Words)) |->
-                  IF Voc[i].w THEN [sh \in {"unix", "windows"} |-> D(CmdWordNode(Voc[i].txt, MCCfg[sh]), fl)]
+               [i \in 1..(Len(Pool) + Len(Words) + Len(VerbWords)) |->
+                  IF "vrt" \in DOMAIN Voc[i] THEN [sh \in {"unix", "windows"} |-> D(RFrag(Voc[i].vrt.f), fl)]
+                  ELSE IF Voc[i].w THEN [sh \in {"unix", "windows"} |-> D(CmdWordNode(Voc[i].txt, MCCfg[sh]), fl)]
                   ELSE [sh \in {"unix", "windows"} |-> D(RFrag(Voc[i].rt.f), fl)]]]
 \* (the table is indexed by the shell of the enclosing cmdline block through RLeafSh)
 MCLeafD(i, fl) == LeafTable[fl][i \div 1000][IF i % 1000 = 1 THEN "unix" ELSE "windows"]
